@@ -15,7 +15,7 @@ SETS = {
     "C01": [("finder", "ParserState.*"), ("finder", "find"), ("preprocessor", "Node.*"), ("preprocessor", "*Node.*"), ("preprocessor", "SourceTree.*"),
             ("preprocessor", "DirectiveParser.*"), ("preprocessor", "Parser.*"), ("preprocessor", "make_macro"), ("preprocessor", "macro_from_definition_string"),
             ("platform", "Platform.define"), ("platform", "Platform.undefine"), ("platform", "Platform.is_defined"), ("platform", "Platform.get_macro"),
-            ("file_parser", ALL), ("preprocessor", "MacroExpander.expand"), ("preprocessor", "MacroExpander.defined")],
+            ("file_parser", ALL), ("preprocessor", "MacroExpander.expand"), ("preprocessor", "MacroExpander.defined"), ("file_source", "c_file_source")],
     "C02": [("preprocessor", "ExpressionEvaluator.*"), ("preprocessor", "Lexer.*"), ("preprocessor", "Parser.*"), ("preprocessor", "IfNode.*"), ("preprocessor", "ElIfNode.*"),
             ("preprocessor", "MacroExpander.defined"), ("preprocessor", "MacroExpander.expand"), ("finder", "ParserState.associate*")],
     "C03": [("preprocessor", "Macro.*"), ("preprocessor", "MacroFunction.*"), ("preprocessor", "MacroExpander.*"), ("preprocessor", "ExpanderHelper.*"),
